@@ -5,7 +5,7 @@ polymorphic in the number type (run at Rat by the driver, at ℝ by the theorems
 Supported subset of an expression (anything else raises and leaves a file that breaks the dependent theorems):
   names y_pred / y_true (vectors) . integer / dyadic constants . + - * / and unary minus (vector-vector,
   vector-scalar broadcasting, scalar-scalar) . np.mean np.sum np.square np.sqrt np.abs np.log .
-  np.linalg.norm(v, 2) (also through a local alias `norm = np.linalg.norm`) . cast(float, e)
+  np.linalg.norm(v, 2) (also through a local alias `norm = np.linalg.norm`) . np.ravel(v) . cast(float, e)
 """
 from __future__ import annotations
 
@@ -88,6 +88,10 @@ class Tr:
             if len(e.args) != 1 or e.keywords:
                 raise Unsupported("call " + ast.unparse(e))
             k, x = self.expr(e.args[0])
+            if f == "np.ravel":  # flattening: a Series/DataFrame is already a flat list here
+                if k != "V":
+                    raise Unsupported("ravel of a scalar")
+                return "V", x
             if f == "np.mean":
                 if k != "V":
                     raise Unsupported("mean of a scalar")
